@@ -18,6 +18,7 @@ import (
 	"path/filepath"
 	"runtime/debug"
 	"strings"
+	"syscall"
 	"time"
 
 	"github.com/awslabs/ar-go-tools/analysis"
@@ -41,6 +42,24 @@ func workerMain(args []string) {
 		os.Exit(64)
 	}
 	dir, resFile, jobs := args[0], args[1], args[2:]
+	// a worker must never outlive its driver, run for ever, or take the machine's memory:
+	//  - exit when the parent goes away (the check script kills the driver on its own timeout)
+	//  - hard lifetime limit
+	//  - address-space limit (a diverging traversal allocates without bound): the Go runtime then dies with
+	//    "fatal error: ... out of memory", which the parent treats like an exceeded budget
+	ppid := os.Getppid()
+	go func() {
+		for {
+			time.Sleep(2 * time.Second)
+			if os.Getppid() != ppid {
+				os.Exit(4)
+			}
+		}
+	}()
+	time.AfterFunc(40*time.Minute, func() { os.Exit(5) })
+	memLimit := uint64(4) << 30
+	syscall.Setrlimit(syscall.RLIMIT_AS, &syscall.Rlimit{Cur: memLimit, Max: memLimit})
+	debug.SetMemoryLimit(3 << 30)
 	res, err := os.OpenFile(resFile, os.O_APPEND|os.O_CREATE|os.O_WRONLY, 0o644)
 	if err != nil {
 		fmt.Fprintln(os.Stderr, err)
